@@ -192,6 +192,12 @@ def index_levels(draw, n, allow_none=True):
         names = [nm if i % 2 == 0 else None for i, nm in enumerate(names)]
     elif naming == "int":
         names = list(range(k))
+    if k == 1 and n >= 1 and draw(st.integers(0, 3)) == 0:
+        # a RangeIndex with its own start and step, stop anywhere behind the last label
+        start = draw(st.integers(-3, 6))
+        step = draw(st.sampled_from([2, 3, 3, 5, 1, -1, -2, -3]))
+        r = draw(st.integers(1, abs(step)))
+        return [{"name": names[0], "kind": "int64", "cells": [start + step * i for i in range(n)], "range": [start, step, r]}]
     return [draw(column(n, nm, INDEX_KINDS)) for nm in names]
 
 
